@@ -45,20 +45,19 @@ def specs():
                        ("T[m, n] = A[k, m] * B[k, n]", "Z[m, n] = T[m, n] * C[m, n]"))
     out["spacetime"] = y({"loop-order": {"Z": ["M", "K", "N"]}, "spacetime": {"Z": {"space": ["N"], "time": ["M", "K.coord"], "opt": "slip"}}})
     # metrics-mode specifications from the hardware alphabet: one per kind of binding that carries defaults / expansions
-    want = ["mm/MKN|buf:A.K@root/lazy|cp", "mm/MKN|buf:Z.N@M/eager|cp", "mm/MKN|cache:B.N|cp", "mm/MKN|isL:K<B|cp",
-            "mm/shape|buf:A.K0@K1/eager+seq:K1|cp", "mm/flat|buf:B.K0@K1/lazy|cp", "gamma|T:isL:K<A+Z:mrg:T|cp", "mm/MKN|buf2x:Z.N/lazy-eager|cp"]
-    cfgs = {c[0]: c for c in hw.configs(True)}
-    for w in want:
-        if w in cfgs:
-            out["hw:" + w] = B.to_yaml(cfgs[w][1])
+    # (built directly from the binding menus, so that no slice of hw.configs() can silently drop one)
+    want = [("mm/MKN", {"Z": ["buf:A.K@root/lazy"]}), ("mm/MKN", {"Z": ["buf:Z.N@M/eager"]}), ("mm/MKN", {"Z": ["cache:B.N"]}),
+            ("mm/MKN", {"Z": ["isL:K<B"]}), ("mm/shape", {"Z": ["buf:A.K0@K1/eager", "seq:K1"]}), ("mm/flat", {"Z": ["buf:B.K0@K1/lazy"]}),
+            ("gamma", {"T": ["isL:K<A"], "Z": ["mrg:T"]}), ("mm/MKN", {"Z": ["buf2x:Z.N/lazy-eager"]})]
+    for base, labels in want:
+        name = "hw:%s|%s|cp" % (base, "+".join((("%s:" % o if len(labels) > 1 else "") + l) for o, ls in labels.items() for l in ls))
+        out[name] = B.to_yaml(hw.config(base, labels)[0])
     # one buffet bound in both Einsums of a cascade: eager in the first, explicitly lazy in the last
-    w = "cas2|T:buf:T.N@K/lazy+Z:buf:Z.M@K/lazy|cp"
-    if w in cfgs:
-        z = B.to_yaml(cfgs[w][1])
-        for comp in z["bindings"]["T"]:
-            if comp.get("component") == "Buf":
-                comp["bindings"] = hw.mem_bindings("T", "N", ["coord"], evict="K", style="eager")
-        out["hw:cas2-eager-lazy"] = z
+    z = B.to_yaml(hw.config("cas2", {"T": ["buf:T.N@K/lazy"], "Z": ["buf:Z.M@K/lazy"]})[0])
+    for comp in z["bindings"]["T"]:
+        if comp.get("component") == "Buf":
+            comp["bindings"] = hw.mem_bindings("T", "N", ["coord"], evict="K", style="eager")
+    out["hw:cas2-eager-lazy"] = z
     # a buffer binding of type coord on a rank whose format declares no cbits
     if "hw:mm/MKN|buf:A.K@root/lazy|cp" in out:
         z = copy.deepcopy(out["hw:mm/MKN|buf:A.K@root/lazy|cp"])
